@@ -17,6 +17,7 @@ RULE = ('Twin worlds: the same session configuration is run by the real Backtest
         '<= T; distinct = (config signature, rewrite kind, T).'
         ' Widened: in 40% of the twins the data source first serves another session (started later) in both worlds; expensive shares whose Adj Close is quoted to cents; zero/negative prices in the rewritten future; Adj Close blank on its own.')
 RULE += ' 30% of the twins run on two data sources (the second carries some of the same tickers at other prices, from the first day, sometimes reaching further into the future; in the first source one such ticker starts part-way); both sources are rewritten after T, mostly by deleting/removing bars in that case. 40% of the markets contain untraded days whose bar repeats the previous bar in every column. With a late-starting asset the cut is often before its first bar and the handler has usually served an earlier session.'
+RULE += " A fifth of the 'stale' markets quote closes in whole units (written without decimals) with fractional opens."
 ASSUMPTIONS = ['the cut is by day, as in the statement (same-day look-ahead is covered by C08, not C07)']
 
 
